@@ -52,7 +52,11 @@ package filesystem
 //@   at call unix.Renameat2 assert[same] arg0 == oldDirectory && arg1 == oldPath && arg2 == newDirectory && arg3 == newPath && arg4 == unix.RENAME_NOREPLACE
 //@ func unlinkatRetryingOnEINTR
 //@   at call unix.Unlinkat assert[same] arg0 == directory && arg1 == path && arg2 == flags
+// (fstatat fills the caller's buffer and nothing else: the frame that lets
+// readContentMetadata, which hands it a local buffer, be pure)
 //@ func fstatatRetryingOnEINTR
+//@   modifies metadata.Dev, metadata.Ino, metadata.Nlink, metadata.Mode, metadata.Uid, metadata.Gid, metadata.Rdev, metadata.Size, metadata.Blksize, metadata.Blocks, metadata.Atim, metadata.Mtim, metadata.Ctim
+//@   loop 1 modifies metadata.Dev, metadata.Ino, metadata.Nlink, metadata.Mode, metadata.Uid, metadata.Gid, metadata.Rdev, metadata.Size, metadata.Blksize, metadata.Blocks, metadata.Atim, metadata.Mtim, metadata.Ctim
 //@   at call unix.Fstatat assert[same] arg0 == directory && arg1 == path && arg2 == metadata && arg3 == flags
 //@ func fchmodatRetryingOnEINTR
 //@   at call unix.Fchmodat assert[same] arg0 == directory && arg1 == path && arg2 == mode && arg3 == flags
@@ -95,7 +99,8 @@ package filesystem
 //@ func (*Directory).OpenDirectory
 //@   fresh result0
 //@   ensures[valid] result1 == nil ==> result0 != nil && (validname(name) || name == ".")
-//@   ensures[pos] result1 == nil ==> dpos(result0) == (name == "." ? dpos(d) : childpos(dpos(d), name))
+//@   at call (*Directory).open assert[opened] arg0 == d && arg1 == name && arg2
+//@   ensures[abs] result1 == nil ==> dpos(result0) == (name == "." ? dpos(d) : childpos(dpos(d), name))
 //@   ensures[failed] result1 != nil ==> result0 == nil
 
 //@ func (*Directory).OpenFile
@@ -168,6 +173,6 @@ package filesystem
 //@ func OpenDirectory
 //@   fresh result0
 //@   at call Open assert[same] arg0 == path && arg1 == allowSymbolicLinkLeaf
-//@   ensures[pos] result2 == nil && !allowSymbolicLinkLeaf ==> dpos(result0) == rootpos(path)
+//@   ensures[abs] result2 == nil && !allowSymbolicLinkLeaf ==> dpos(result0) == rootpos(path)
 //@   ensures[ok] result2 == nil ==> result0 != nil
 //@   ensures[failed] result2 != nil ==> result0 == nil
